@@ -15,6 +15,8 @@
  *      are entered (C02_save_before_callback), their own stack alignment, and
  *      scribble over caller-saved registers, MXCSR/CW and the stack below them
  *      (validates the ABI oracle of the Coq model).
+ *  J <init_and_jump|init_and_jump_with_call> <restore> <off>
+ *      white box: A switches to a third context that starts B with the jump variant; B restores A.
  *  K <off>
  *      white box: peek_fcontext on a suspended context, then a round trip through it.
  *  P <prov> <off> <size> <op> <res>
@@ -356,6 +358,58 @@ static void run_W(const char *save, const char *restore, int off)
         failf("f_thread ran %d times", w_b_runs);
 }
 
+/* J <init_and_jump|init_and_jump_with_call> <restore> <off>: A switches (through the trampoline) to a
+ * third context C, which starts B with the jump variant; B restores A */
+static fcontext_t wC;
+static char *wstkC;
+static int w_jvariant;
+static void w_c_entry(fcontext_t *p)
+{
+    (void)p;
+    switch_fcontext(&wA, &wC); /* become a started, suspended context */
+    if (w_jvariant == 0)
+        init_and_jump_fcontext(&wB, w_b_entry, w_top);
+    else
+        init_and_jump_with_call_fcontext(W_ARG1, w_cb, &wB, w_b_entry, w_top);
+    failf("init_and_jump returned");
+    for (;;)
+        switch_fcontext(&wA, &wC);
+}
+static void run_J(const char *variant, const char *restore, int off)
+{
+    int T = kind_of(restore);
+    w_jvariant = !strcmp(variant, "init_and_jump_with_call");
+    if (T < 0 || T == K_ISWITCH || T == K_ISWC || (!w_jvariant && strcmp(variant, "init_and_jump"))) {
+        failf("bad J scenario");
+        return;
+    }
+    if (!wstk)
+        wstk = (char *)aligned_alloc(64, WSTK + 64);
+    if (!wstkC)
+        wstkC = (char *)aligned_alloc(64, WSTK + 64);
+    memset(wstk, 0x5c, WSTK + 64);
+    memset(wstkC, 0x5d, WSTK + 64);
+    w_top = wstk + WSTK - off;
+    wA.dummy = wB.dummy = wC.dummy = NULL;
+    w_restore = T;
+    w_b_runs = w_cb_calls = w_cb2_calls = 0;
+    w_phase = 1;
+    init_and_switch_fcontext(&wC, w_c_entry, wstkC + WSTK, &wA);
+    if (!wC.dummy)
+        failf("could not prepare a started context C");
+    wA.dummy = NULL;
+    cc_fill(&wccA, 0xA, off + T);
+    wccA.fn = (void *)switch_fcontext;
+    wccA.arg[0] = (uint64_t)&wC, wccA.arg[1] = (uint64_t)&wA;
+    canary_call(&wccA);
+    fp_default();
+    cc_check(&wccA, "A");
+    if (w_b_runs != 1)
+        failf("f_thread ran %d times", w_b_runs);
+    if (w_jvariant && w_cb_calls != 1)
+        failf("f_cb ran %d times", w_cb_calls);
+}
+
 /* K <off>: peek_fcontext on a suspended B, then a switch round trip through B: B's frame must have survived */
 static int w_peek_calls;
 static void w_peek(void *arg)
@@ -410,7 +464,9 @@ static struct {
     ABT_thread A, B;
     ABT_eventual ev;
     int b_incarnation, b_done, a_done;
-    char *ubuf, *ubase;
+    char *ubuf, *ubase;   /* user stack of A */
+    char *ubuf2, *ubase2; /* user stack of B (same provenance as A) */
+    ABT_thread_attr attrB;
     struct cc cc;
 } G;
 static int op_is(const char *s) { return !strcmp(G.op, s); }
@@ -430,7 +486,13 @@ static void B_body(void *arg)
     (void)arg;
     int inc = G.b_incarnation++;
     if (!ENTRY_ALIGNED())
-        failf("helper ULT entered misaligned");
+        failf("helper ULT function entered with RSP+8 not a multiple of 16 (frame address %p)", __builtin_frame_address(0));
+    movaps_probe();
+    if (G.prov == 'U') {
+        char *p = (char *)&inc;
+        if (!(p >= G.ubase2 && p < G.ubase2 + G.size))
+            failf("helper's locals at %p outside its user stack [%p,%p)", (void *)p, (void *)G.ubase2, (void *)(G.ubase2 + G.size));
+    }
     if (op_is("revive_to") && inc == 0)
         return; /* first incarnation just terminates; A revives it */
     if (op_is("yield_to_started") || op_is("suspend_to_started") || op_is("schedule_started"))
@@ -511,7 +573,7 @@ static void A_body(void *arg)
     } else if (op_is("create_to")) {
         c->fn = (void *)ABT_thread_create_to;
         c->arg[0] = (uint64_t)G.PP, c->arg[1] = (uint64_t)B_body, c->arg[2] = 0,
-        c->arg[3] = (uint64_t)ABT_THREAD_ATTR_NULL, c->arg[4] = (uint64_t)&G.B;
+        c->arg[3] = (uint64_t)G.attrB, c->arg[4] = (uint64_t)&G.B;
     } else if (op_is("revive_to")) {
         c->fn = (void *)ABT_thread_revive_to;
         c->arg[0] = (uint64_t)G.PP, c->arg[1] = (uint64_t)B_body, c->arg[2] = 0, c->arg[3] = (uint64_t)&G.B;
@@ -563,6 +625,24 @@ static void A_body(void *arg)
     G.a_done = 1;
 }
 
+/* a user stack must not have been written outside [base, base+size) */
+static void check_guard(const char *buf, const char *base, const char *whose)
+{
+    long i, lo = base - buf;
+    if (!buf)
+        return;
+    for (i = 0; i < lo; i++)
+        if ((unsigned char)buf[i] != 0x6b) {
+            failf("byte below %s user stack written (offset %ld)", whose, i - lo);
+            break;
+        }
+    for (i = lo + G.size; i < G.size + 256; i++)
+        if ((unsigned char)buf[i] != 0x6b) {
+            failf("byte above %s user stack written (offset +%ld past the top)", whose, i - (lo + G.size));
+            break;
+        }
+}
+
 static void run_P(void)
 {
     ABT_thread_attr attr = ABT_THREAD_ATTR_NULL;
@@ -580,22 +660,32 @@ static void run_P(void)
     CHK(ABT_eventual_create(0, &G.ev));
     G.A = G.B = ABT_THREAD_NULL;
     G.b_incarnation = G.b_done = G.a_done = 0;
+    G.attrB = ABT_THREAD_ATTR_NULL;
     if (G.prov == 'M') {
         CHK(ABT_thread_attr_create(&attr));
         CHK(ABT_thread_attr_set_stacksize(attr, (size_t)G.size));
+        CHK(ABT_thread_attr_create(&G.attrB));
+        CHK(ABT_thread_attr_set_stacksize(G.attrB, (size_t)G.size));
     } else if (G.prov == 'U') {
         G.ubuf = (char *)malloc((size_t)G.size + 256);
         G.ubase = (char *)(((uintptr_t)G.ubuf + 63) & ~(uintptr_t)63) + G.off;
         memset(G.ubuf, 0x6b, (size_t)G.size + 256);
         CHK(ABT_thread_attr_create(&attr));
         CHK(ABT_thread_attr_set_stack(attr, G.ubase, (size_t)G.size));
+        /* the helper gets a user stack of the same shape: it is the one entered through the
+         * init_and_switch_with_call path of yield_to / create_to / revive_to / suspend_to */
+        G.ubuf2 = (char *)malloc((size_t)G.size + 256);
+        G.ubase2 = (char *)(((uintptr_t)G.ubuf2 + 63) & ~(uintptr_t)63) + G.off;
+        memset(G.ubuf2, 0x6b, (size_t)G.size + 256);
+        CHK(ABT_thread_attr_create(&G.attrB));
+        CHK(ABT_thread_attr_set_stack(G.attrB, G.ubase2, (size_t)G.size));
     }
     if (G.prov != 'Y')
         CHK(ABT_thread_create(G.M, A_body, NULL, attr, &G.A));
     else
         CHK(ABT_self_get_thread(&G.A));
     if (b_pool_M >= 0)
-        CHK(ABT_thread_create(b_pool_M ? G.M : G.PP, B_body, NULL, ABT_THREAD_ATTR_NULL, &G.B));
+        CHK(ABT_thread_create(b_pool_M ? G.M : G.PP, B_body, NULL, G.attrB, &G.B));
     if (!g_fail) {
         if (G.prov != 'Y')
             CHK(ABT_thread_join(G.A));
@@ -626,25 +716,16 @@ static void run_P(void)
         CHK(ABT_thread_free(&G.A));
     if (attr != ABT_THREAD_ATTR_NULL)
         CHK(ABT_thread_attr_free(&attr));
+    if (G.attrB != ABT_THREAD_ATTR_NULL)
+        CHK(ABT_thread_attr_free(&G.attrB));
     CHK(ABT_eventual_free(&G.ev));
     CHK(ABT_pool_free(&G.PP));
     CHK(ABT_finalize());
-    if (G.ubuf) {
-        /* the user stack must not have been written outside [base, base+size) */
-        long i;
-        for (i = 0; i < G.ubase - G.ubuf; i++)
-            if ((unsigned char)G.ubuf[i] != 0x6b)
-                break;
-        if (i < G.ubase - G.ubuf)
-            failf("byte below the user stack written (offset %ld)", i - (long)(G.ubase - G.ubuf));
-        for (i = (G.ubase - G.ubuf) + G.size; i < G.size + 256; i++)
-            if ((unsigned char)G.ubuf[i] != 0x6b)
-                break;
-        if (i < G.size + 256)
-            failf("byte above the user stack written (offset +%ld past the top)", i - (long)((G.ubase - G.ubuf) + G.size));
-        free(G.ubuf);
-        G.ubuf = NULL;
-    }
+    check_guard(G.ubuf, G.ubase, "A's");
+    check_guard(G.ubuf2, G.ubase2, "B's");
+    free(G.ubuf);
+    free(G.ubuf2);
+    G.ubuf = G.ubuf2 = NULL;
 }
 
 int main(int argc, char **argv)
@@ -685,6 +766,8 @@ int main(int argc, char **argv)
         alarm(20);
         if (sscanf(line, " %c", &k) == 1 && k == 'W' && sscanf(line, " W %39s %39s %d", a, b, &off) == 3) {
             run_W(a, b, off);
+        } else if (k == 'J' && sscanf(line, " J %39s %39s %d", a, b, &off) == 3) {
+            run_J(a, b, off);
         } else if (k == 'K' && sscanf(line, " K %d", &off) == 1) {
             run_K(off);
         } else if (k == 'P' && sscanf(line, " P %c %d %ld %31s %31s", &G.prov, &G.off, &G.size, G.op, G.res) == 5) {
